@@ -511,6 +511,7 @@ def linear_new():
     final_proof = '''let ghost n = terms.len() as int; let ghost am = acc(ch, n);
         let __t = btree_into_terms(merged);   // R20c
         proof {
+            assert forall|j: int| 0 <= j < __t.len() implies exists|i: int| 0 <= i < terms.len() && (#[trigger] terms[i]).0 == (#[trigger] __t[j]).id by { assert(merged@.contains_key(__t[j].id)); }
             if pairs_fin(terms@) {
                 assert(terms_fin(ch)) by { assert forall|i: int| 0 <= i < ch.len() implies fin((#[trigger] ch[i]).coefficient) by { assert(ch[i].coefficient == terms[i].1); } }
                 assert(am.dom() =~= merged@.dom());
@@ -529,13 +530,16 @@ pub fn new(terms: Vec<(u64, F64)>, constant: F64) -> (r: Linear)
             r.constant == constant,
             forall|i: int, j: int| 0 <= i < j < r.terms.len() ==> r.terms[i].id < r.terms[j].id,
             pairs_fin(terms@) ==> lists_map(r.terms@, r.terms.len() as int, acc(pairs_terms(terms@), terms.len() as int))
-                && forall|m: Map<u64, F64>| #![trigger lin_all(r.terms@, m)] lin_all(r.terms@, m) == msum(acc(pairs_terms(terms@), terms.len() as int), m),''',
+                && forall|m: Map<u64, F64>| #![trigger lin_all(r.terms@, m)] lin_all(r.terms@, m) == msum(acc(pairs_terms(terms@), terms.len() as int), m),
+            // every id of the result is an id of the input (for all inputs)
+            forall|j: int| 0 <= j < r.terms.len() ==> exists|i: int| 0 <= i < terms.len() && (#[trigger] terms[i]).0 == (#[trigger] r.terms[j]).id,''',
                 rsubs=[(r'let mut merged = BTreeMap::new\(\);', 'let mut merged: BTreeMap<u64, F64> = BTreeMap::new();', 1),
                        (r'(?s)merged\.into_iter\(\)\.map\(\|\(id, coefficient\)\| Term \{ id, coefficient \}\)\.collect\(\)', 'btree_into_terms(merged)', 1)],
                 loops=[dict(kind='for', it='it_1', rebind='(__e.0, __e.1)',
                             body_proof=' proof { assert(*__e == terms[it_1.index@ as int]); assert(ch[it_1.index@ as int].id == __e.0 && ch[it_1.index@ as int].coefficient == __e.1); }',
                             inv='''invariant
                 ch == pairs_terms(terms@), __h1@ == terms@,
+                forall|k: u64| #[trigger] merged@.contains_key(k) ==> exists|i: int| 0 <= i < it_1.index@ && (#[trigger] terms[i]).0 == k,
                 terms_fin(ch) ==> map_matches(merged@, acc(ch, it_1.index@ as int)),''')],
                 proofs=[(('before', r'let __h1 = terms;'), 'let ghost ch = pairs_terms(terms@);\n        '),
                         (('before', r'Self \{\s*terms: __t'), final_proof)],
